@@ -43,12 +43,30 @@ def skip_discipline(prog, rep, R):
         return
     h, L = next(iter(loops.items()))
     from panic import dominating_conditions
-    pushes = [c for c in b.calls() if c.callee in ("alloc::string::String::push_str",) and c.bb in L]
-    data = [c for c in pushes if "strip_prefix(" in canon(b, c.args[1])]
+    def pushed_texts(c):
+        """what an append hands over: the argument, or the elements of an array literal (`extend([prefix, line])`)"""
+        t = canon(b, c.args[1])
+        m = re.match(r"^array\{(.*)\}$", t)
+        if not m:
+            return [t]
+        parts, depth, cur = [], 0, ""
+        for ch in m.group(1):
+            if ch in "({[":
+                depth += 1
+            elif ch in ")}]":
+                depth -= 1
+            if ch == "," and depth == 0:
+                parts.append(cur)
+                cur = ""
+            else:
+                cur += ch
+        return parts + [cur]
+    pushes = [c for c in b.calls() if (c.callee in ("alloc::string::String::push_str",) or (c.callee or "").endswith("Extend::extend")) and c.bb in L and len(c.args) == 2]
+    data = [c for c in pushes if any("strip_prefix(" in t for t in pushed_texts(c))]
     if not rep.check(len(data) == 1, R, "one-data-push", "the loop must push the stripped interior line exactly once (found %d)" % len(data)):
         return
     dp = data[0]
-    ca = canon(b, dp.args[1])
+    ca = [t for t in pushed_texts(dp) if "strip_prefix(" in t][0]
     rep.check(ca.startswith("strip_prefix(") and ",arg4)@Some.0" in ca, R, "pushed=line-minus-base-indentation", "the pushed text is not `line.strip_prefix(base_indentation)`: %s" % ca,
               instance={"pushed": ca})
     # allowed skip edges
@@ -99,8 +117,43 @@ def skip_discipline(prog, rep, R):
         facts_dp = dominating_variant_facts(prog, b, dp.bb)
         rep.check(any("strip_prefix(" in f[0] and f[2] == ("Some",) for f in facts_dp), R, "push-only-on-Some", "the data push is not confined to the Some arm of strip_prefix")
     # first line is taken as is
-    ext = [c for c in b.calls() if (c.callee or "").endswith("Extend::extend") and c.bb not in L]
+    # (appends into the literal under construction: the string the data push goes into)
+    result = canon(b, dp.args[0])
+    ext = [c for c in b.calls() if ((c.callee or "").endswith("Extend::extend") or c.callee == "alloc::string::String::push_str") and c.bb not in L and len(c.args) == 2 and canon(b, c.args[0]) == result]
     rep.check(len(ext) == 1 and "next(" in canon(b, ext[0].args[1]), R, "first-line-kept", "the first line (opening quotes) is no longer copied as is")
+
+
+def per_literal_body(prog):
+    """The body that decides about one token of the line and replaces its text: format_multiline_strings with its single-use helpers spliced
+    in, or — when the per-token step was extracted and is driven through a closure (`fold`, `for_each`) — that step."""
+    keep = ("try_rewrite_string", "lines_custom", "get_token_mut", "get_token", "set_content", "get_content")
+    b = prog.inlined(SF + "format_multiline_strings", keep=keep)
+    if b is None or b.calls_to(LANG + "Token::set_content"):
+        return b
+    from util import family_bodies
+    root = prog.body(SF + "format_multiline_strings")
+    for body, _a, _c in family_bodies(prog, root):
+        if body is not root and body.calls_to(LANG + "Token::set_content"):
+            return prog.inlined(body.npath, keep=keep) or body
+    return b
+
+
+def _text_origins(bd, op, depth=0):
+    """origins of a text handed to push_str / extend, looking through views of a string (as_str, deref ..), array literals (`extend([a, b])`:
+    the origins of every element) and repetitions (`repeat_n(s, n)`, `repeat(s).take(n)`: the origins of s)"""
+    og = Origins(bd, extra_identity={"alloc::string::String::as_str", "core::ops::deref::Deref::deref", "core::convert::AsRef::as_ref", "core::borrow::Borrow::borrow",
+                                     "core::iter::traits::iterator::Iterator::take", "core::iter::traits::collect::IntoIterator::into_iter"})
+    out = set()
+    for x in og.of_operand(op):
+        if x[0] == "agg" and x[3] in ("array", "tuple") and depth < 3:
+            for e in bd.blocks[x[1]]["stmts"][x[2]]["rv"]["ops"]:
+                out |= _text_origins(bd, e, depth + 1)
+        elif x[0] == "call" and x[2].split("::")[-1] in ("repeat_n", "repeat") and x[2].startswith("core::iter::") and depth < 3:
+            t = bd.blocks[x[1]]["term"]
+            out |= _text_origins(bd, t["args"][0], depth + 1)
+        else:
+            out.add(x)
+    return out
 
 
 def check_c12(prog, rep, tier, cfg):
@@ -157,7 +210,7 @@ def check_c12(prog, rep, tier, cfg):
                   instance={"guard": "olf_settings.format_multiline_strings"})
     # ---------------------------------------------------------------- C12.b
     R = "C12.b"
-    b = prog.inlined(SF + "format_multiline_strings", keep=("try_rewrite_string", "lines_custom", "get_token_mut", "get_token", "set_content", "get_content"))
+    b = per_literal_body(prog)
     if rep.check(b is not None, R, "anchor:format_multiline_strings", "format_multiline_strings not found"):
         sc = b.calls_to(LANG + "Token::set_content")
         if rep.check(len(sc) == 1, R, "one-set_content", "format_multiline_strings must call set_content exactly once"):
@@ -206,11 +259,13 @@ def check_c12(prog, rep, tier, cfg):
                 if c.callee in ("alloc::string::String::push_str", "alloc::string::String::push") or (c.callee or "").endswith("Extend::extend") or _layout2.is_repeat_push_helper(prog, c.target):
                     if "String" not in bd.locals[c.args[0]["place"]["l"]]["ty"]:
                         continue
-                    ao = og.of_operand(c.args[1])
+                    ao = _text_origins(bd, c.args[1])
                     names = sorted({x[2].split("::")[-1] for x in ao if x[0] == "call"})
                     # a helper of the same impl that assembles nothing but repetitions of the two indent strings counts as those strings
                     built = {x[2] for x in ao if x[0] == "call" and _is_indent_builder(prog, x[2])}
-                    ok = bool(names) and all((n in ("get_newline_str", "get_indentation_str", "get_continuation_str", "next", "strip_prefix")) or any(b2.split("::")[-1] == n for b2 in built) for n in names) and all(x[0] == "call" for x in ao)
+                    # (a String made here — `String::new()` — is text of this function: what is appended to it is judged at its own appends)
+                    fresh = {x[2].split("::")[-1] for x in ao if x[0] == "call" and x[2] in ("alloc::string::String::new", "alloc::string::String::with_capacity")}
+                    ok = bool(names) and all((n in ("get_newline_str", "get_indentation_str", "get_continuation_str", "next", "strip_prefix")) or n in fresh or any(b2.split("::")[-1] == n for b2 in built) for n in names) and all(x[0] == "call" for x in ao)
                     srcs.append(names)
                     rep.check(ok, R, "append:%s:%s" % (short(bd.npath).split("::")[-1], names), "try_rewrite_string appends text of foreign origin: %s" % sorted(map(str, ao)), where=c.where(),
                               instance={"append": c.callee.split("::")[-1], "origin": names})
